@@ -4,20 +4,23 @@ import os
 
 HERE = os.path.dirname(os.path.dirname(os.path.abspath(__file__)))
 
-CHECKS = {
-    "C13": dict(
-        category="proof",
-        text="Lean 4 theorems over a model of util.write_continue/write_lines (text preservation, grouping of whole parts "
-             "per physical line, break points only at TAB/FF, marker on every broken line, length bound 'fits or carries at most "
-             "one part', directive semantics, totality) for all lines/lengths/indents; the model is tied to util.py on every run by "
-             "differential correspondence through the compiled Lean driver; an implementation-only oracle searches for failing inputs.",
-        design="3 C13",
-        note="Trusted: Lean kernel (axioms propext, Classical.choice, Quot.sound only); the hand-written model, validated only on "
-             "generated inputs (exhaustive short strings over the directive alphabet + seeded random lines); Python whitespace "
-             "modelled on ASCII+U+0085/U+00A0. The 132-column consequence for real outputs is a corpus measurement (thorough tier).",
-        technique="Lean 4 proof by induction over the part list + differential correspondence model/implementation",
-    ),
-}
+import importlib
+import sys
+
+sys.path.insert(0, HERE)
+
+
+def load_checks():
+    """Each tools/props/cNN.py that defines MANIFEST = dict(category, text, design, note, technique) is claimed."""
+    res = {}
+    pdir = os.path.join(HERE, "tools", "props")
+    for f in sorted(os.listdir(pdir)):
+        if f.startswith("c") and f.endswith(".py"):
+            mod = importlib.import_module("tools.props." + f[:-3])
+            if getattr(mod, "MANIFEST", None):
+                res[f[:-3].upper()] = mod.MANIFEST
+    return res
+
 
 NOT_APPLICABLE = [
 ]
@@ -25,6 +28,7 @@ NOT_APPLICABLE = [
 
 def main():
     props = [json.loads(l)["id"] for l in open(os.path.join(HERE, "properties.jsonl"))]
+    CHECKS = load_checks()
     checks = []
     for pid in props:
         if pid not in CHECKS:
